@@ -1,5 +1,7 @@
 from ..framework import Spec
 from ..ties_cond import file_tie
+from ..ties_sys import scenario_tie
+from ..scenarios import gen_cond_scenario
 
-SPEC = Spec(pid='C08', coq_needs=['Base', 'Cond', 'CondSpec', 'CondProofs', 'Subst', 'CondEval', 'Properties/C08'],
-            ties=[file_tie()])
+SPEC = Spec(pid='C08', coq_needs=['Base', 'Cond', 'CondSpec', 'CondProofs', 'Subst', 'CondEval', 'Program', 'Properties/C08'],
+            ties=[file_tie(), scenario_tie('cond_programs', gen_cond_scenario, 250, 4000)])
